@@ -74,6 +74,7 @@ type Scenario struct {
 	ShiftNs     int64 // pair runs: epoch offset of the second run
 	TxArrival   int   // C16 workload pattern
 	Sub         int   // sub-scenario selector (C09)
+	VerdictPM   uint64 // fuzz: chance that a Verify* callback rejects
 	SlowNode    int   // 1+identity whose application is slow to call Reset (up to 1.5 T)
 	PoorNode    int   // 1+identity whose mempool misses most gossiped transactions (0: none)
 	SupplySlow  int64 // extra tx supply latency in multiples of the base latency
